@@ -105,6 +105,20 @@ func checkC14(c C14Case, o *Obs) error {
 		if p != nil {
 			return fmt.Errorf("TranslateReadingFrames(%q) (length %d) panicked: %v", seq, len(seq), p)
 		}
+		// the three results are independent values: appending to one of them must not change another
+		want3 := [3][]byte{}
+		for i := 0; i < 3; i++ {
+			want3[i] = bytes.Clone(got[i])
+		}
+		for i := 0; i < 3; i++ {
+			ext := append(got[i], "XYZXYZXYZ"...)
+			for j := 0; j < 3; j++ {
+				if j != i && !bytes.Equal(got[j], want3[j]) {
+					return fmt.Errorf("appending to frame %d of TranslateReadingFrames(%q) changed frame %d from %q to %q (results share storage)", i, seq, j, want3[j], got[j])
+				}
+			}
+			_ = ext
+		}
 		for i := 0; i < 3; i++ {
 			sub := seq[min(i, len(seq)):]
 			sub = sub[:len(sub)/3*3]
